@@ -65,6 +65,14 @@ def rule_interface(run):
     app = [c for c in calls_in(loops[0]) if dotted(c.func) == f"{ret_v}.append"]
     ok = len(app) == 1 and isinstance(app[0].args[0], ast.JoinedStr) and [src(v.value) for v in app[0].args[0].values if isinstance(v, ast.FormattedValue)][:2] == [name_v, (mode_vars[0] if mode_vars else "dir_str")]
     run.ob(ok, "vhdl.Entity._port_declarations", file=vh.rel, line=f.node.lineno, detail="template", expected="`{name} : {dir_str} <type>;` for every port", found=src(app[0].args[0])[:70] if app else "missing")
+    # the name in the port list is the identifier the architecture body uses for the port (the scope's allocated name);
+    # a raw attribute name that the allocator had to change (reserved word, case-insensitive collision) must not be
+    # emitted unchanged - or such names must be rejected
+    uses_alloc = any(isinstance(c.func, ast.Attribute) and c.func.attr in ("lookup_name", "format_target", "format_name") for v in (app[0].args[0].values[:1] if app and isinstance(app[0].args[0], ast.JoinedStr) else []) if isinstance(v, ast.FormattedValue) for c in ast.walk(v.value) if isinstance(c, ast.Call))
+    validated = any(isinstance(a, ast.Assert) and name_v in src(a.test) for a in walk_local(f.node))
+    run.ob(uses_alloc or validated, "vhdl.Entity._port_declarations", file=vh.rel, line=f.node.lineno, detail="declared-name-is-allocated-name",
+           expected="the declared port name is the scope's name for the port object (or raw names the allocator changes are rejected)",
+           found="ok" if uses_alloc or validated else "the raw attribute name is emitted: a port called `out` is declared `out : out std_logic` while the body drives `out1`")
     init = vh.func("Entity.__init__")
     ok = "self._ports = info.ports" in P.T(init.node)
     run.ob(ok, "vhdl.Entity.__init__", file=vh.rel, line=init.node.lineno, detail="declared-ports", expected="self._ports = info.ports", found="ok" if ok else "changed")
